@@ -199,7 +199,7 @@ PROPS["C07"] = dict(
 PROPS["C08"] = dict(
     module="Panacea.Properties.C08",
     obligations=["Panacea.C08.rebuild_sorted", "Panacea.C08.did_import_export", "Panacea.C08.import_get",
-                 "Panacea.C08.entry_roundtrip", "Panacea.C08.aol_table_import_export",
+                 "Panacea.C08.entry_roundtrip", "Panacea.C08.aol_table_import_export", "Panacea.C08.aol_import_export",
                  "Panacea.C18.string_roundtrip_admitted"],
     streams=[dict(name="genesis", quick=40, thorough=600, thorough_seeds=3)],
     trusted=["hand-written Lean model Panacea/Model/Genesis.lean of x/aol and x/did Export/InitGenesis, tied by the genesis stream: histories over all three modules on a real app; the custom modules' genesis is exported twice (byte-equal), validated with ModuleBasics.ValidateGenesis, imported into a fresh application through InitChain, re-exported (byte-equal), and the history continues on the new application with all dumps and queries compared",
@@ -320,11 +320,15 @@ R_CKS = [f"{_RS}.encodeToString_run", f"{_RS}.decodeFromString_run",
          f"{_RS}.writer_strings", f"{_RS}.writer_fromStrings_some", f"{_RS}.writer_fromStrings_none",
          f"{_RS}.record_strings", f"{_RS}.record_fromStrings_some", f"{_RS}.record_fromStrings_none",
          f"{_RS}.roundtrip_owner", f"{_RS}.roundtrip_topic", f"{_RS}.roundtrip_writer", f"{_RS}.roundtrip_record"]
+_RAG = "Panacea.Refine.AolGenesis"
+R_AOLG = [f"{_RAG}.owner_step", f"{_RAG}.topic_step", f"{_RAG}.writer_step", f"{_RAG}.record_step", f"{_RAG}.initGenesis_run",
+          f"{_RAG}.fold_table", f"{_RAG}.fold_table_panic", f"{_RAG}.initGenesis_refines", f"{_RAG}.initGenesis_panics",
+          f"{_RAG}.initGenesis_of_export"]
 _RDG = "Panacea.Refine.DidGenesis"
 R_DIDG = [f"{_RK}.initGenesis_run", f"{_RK}.initGenesis_abs", f"{_RK}.initGenesis_empty", f"{_RK}.listDIDs_run",
           f"{_RK}.exportGenesis_run", f"{_RK}.genesis_roundtrip", f"{_RK}.initGenesis_order_independent"]
 REFINE = {
-    "C18": ([_RC, _RCS], R_COMPKEY + R_CKS),
+    "C18": ([_RC, _RCS, _RAG], R_COMPKEY + R_CKS + R_AOLG[:5]),
     "C01": ([_RA, _RAQ], R_COMPKEY + R_AOL + R_AOLQ[2:3]),
     "C13": ([_RA, _RAQ], R_COMPKEY + R_AOL + R_AOLQ),
     "C02": ([_RA, _RT], R_AOL + R_SIGNERS),
@@ -336,8 +340,8 @@ REFINE = {
     "C11": ([_RD, _RK], R_DIDV[-4:] + R_DIDK[3:5]),
     "C03": ([_RD, _RK, _RDG], R_DIDV[3:5] + R_DIDV[6:7] + R_DIDK + R_DIDG[-2:-1]),
     "C07": ([_RB], R_BURN),
-    "C08": ([_RP, _RPQ, _RPG, _RDG, _RCS], R_PNFTG + [f"{_RP}.getAllDenoms_run"] + R_DIDG + R_CKS[-4:]),
-    "C09": ([_RDG], R_DIDG[:3] + R_DIDG[-1:]),
+    "C08": ([_RP, _RPQ, _RPG, _RDG, _RCS, _RAG], R_PNFTG + [f"{_RP}.getAllDenoms_run"] + R_DIDG + R_CKS[-4:] + R_AOLG),
+    "C09": ([_RDG, _RAG], R_DIDG[:3] + R_DIDG[-1:] + R_AOLG[4:5] + R_AOLG[7:9]),
     "C04": ([_RK, _RDG], R_DIDK[2:] + R_DIDG[-2:-1]),
     "C05": ([_RK, _RDG], R_DIDK[3:] + R_DIDG[-2:-1]),
 }
